@@ -178,8 +178,9 @@ def addr_text(rep, u, fname="sa_addr_to_str"):
                 undec = undec or "family=%s buf_size=%d: the capacity handed to inet_ntop is not evaluable" % (FAM_NAME[fam], size)
                 continue
             ok = L + 1 <= cap0
-        pe = r_stride.PE(u, call_default={"inet_ntop": BUF if ok else 0, "sa_addr_get": SIN, "strnlen": min(L, size), "strlcpy": L,
-                                           "__errno_location": 0x40000})
+        # strnlen(s, max) = min(length, max): on the AF_UNIX arm the bound is the size of sun_path (108), otherwise the buffer size
+        pe = r_stride.PE(u, call_default={"inet_ntop": BUF if ok else 0, "sa_addr_get": SIN, "strnlen": min(L, 108) if fam == 1 else min(L, size),
+                                           "strlcpy": L, "__errno_location": 0x40000})
         pe.memory[0x40000] = 28
         ev, ret = pe.trace(fn, bind)
         what = "family=%s buf_size=%d text of %d bytes%s" % (FAM_NAME[fam], size, L, "" if ok else " (inet_ntop fails)")
@@ -319,6 +320,36 @@ def mask_functions(rep, u, table):
                 undeci = undeci or "mask of length %d: %s" % (l, reti)
             elif reti != l:
                 badi = badi or "the mask of prefix length %d is converted back to %s" % (l, reti)
+        # masks that are no prefix mask (ones after a zero): both families answer 0 - "conversions are inverse" means
+        # len2mask(mask2len(m)) == m for every m that mask2len maps to a length
+        badn = undecn = None
+        nonc = []
+        for w in range(words):
+            for hole in (ref_mask32(1), ref_mask32(9) & ~ref_mask32(8) | ref_mask32(4), 0):
+                for tail in (0xffffffff, ref_mask32(8), 0x01000000):
+                    if w + 1 >= words and words > 1:
+                        continue
+                    m = [0xffffffff] * w + [hole] + ([tail] + [0] * (words - w - 2) if words - w - 1 > 0 else [])
+                    if len(m) == words and any(t for t in m[w + 1:]):
+                        nonc.append(m)
+        if words == 1:
+            nonc = [[ref_mask32(9) & ~ref_mask32(8) | ref_mask32(4)], [0x01000000], [ref_mask32(32) & ~ref_mask32(1)]]
+        for m in nonc:
+            pi = r_stride.PE(u)
+            for i, t in enumerate(table):
+                pi.memory[TBL + 4 * i] = t
+            for w in range(words):
+                pi.memory[MASK + 4 * w] = m[w]
+            bi = {fi.params[0]["n"]: MASK, "pref_to_mask": TBL, "%s->s_addr" % fi.params[0]["n"]: m[0]}
+            evi, reti = pi.trace(fi, bi)
+            n += 1
+            if isinstance(reti, str):
+                undecn = undecn or "%s: %s" % (["%#x" % t for t in m], reti)
+            elif reti != 0:
+                badn = badn or "the non-contiguous mask %s is converted to prefix length %s; %s of that length is a different mask" % (
+                    " ".join("%08x" % t for t in m), reti, fname)
+        desc = "%s returns 0 for masks that are not a run of ones followed by zeros" % inv
+        (rep.violated if badn else rep.undecided if undecn else rep.proved)("R-SPEC", fi, "mask2len-noncontiguous", desc, badn or undecn or "%d masks" % len(nonc))
         desc = "%s writes every word of the mask once with the value of the arithmetic mask for len = 0..%d and refuses larger lengths" % (fname, bits)
         (rep.violated if bad else rep.undecided if undec else rep.proved)("R-SPEC", fn, "len2mask", desc, bad or undec or "%d lengths evaluated" % (bits + 3))
         desc = "%s returns l on the mask of every prefix length l = 0..%d (inverse of %s)" % (inv, bits, fname)
@@ -372,6 +403,51 @@ def _arm_regions(fn, sw, arms):
         for b in seen:
             out.setdefault(b, set()).add(fam)
     return out
+
+
+def unix_path_rule(rep, u, rel):
+    """sun_path is a fixed array that may be filled completely, without a terminator (the comparison routines of this file
+    already allow for that).  In the AF_UNIX arm of every family switch no routine that scans its *source* for a NUL
+    (strlcpy, strlen, strcpy, strcat) is applied to the address bytes."""
+    SCAN = {"strlcpy": 1, "strlen": 0, "strcpy": 1, "strcat": 1, "strlcat": 1}
+    n = 0
+    for fn in u.function_list:
+        if fn.relfile() != rel or not fn.has_cfg:
+            continue
+        for sw, arms in _family_switches(fn):
+            reg = _arm_regions(fn, sw, arms)
+            for b, fams in reg.items():
+                if fams != {1}:
+                    continue
+                for e in fn.blocks[b].elems:
+                    for x, _ in walk(e):
+                        if x.get("k") == "call" and x.get("fn") in SCAN:
+                            src = x["args"][SCAN[x["fn"]]]
+                            s0 = core.base_ref(src)
+                            from_addr = "sun_path" in key(src)
+                            if s0 is not None and s0.get("dk") == "local":
+                                defs = [y["y"] for _p, _r, y, _ps in fn.nodes() if y.get("k") == "bin" and y["op"] == "=" and core.is_ref(strip_casts(y["x"]), id=s0["id"])]
+                                from_addr = from_addr or any(strip_casts(d_).get("k") == "call" and strip_casts(d_).get("fn") == "sa_addr_get" for d_ in defs)
+                            if not from_addr:
+                                # the source is the caller's C string: scanning it is fine, but a copy into the fixed field must not
+                                # truncate silently (a different socket path would be stored)
+                                if x["fn"] == "strlcpy" and "sun_path" in key(x["args"][0]):
+                                    n += 1
+                                    rep.functions.add(fn.name)
+                                    par_used = any(p_.get("k") in ("bin", "call") for p_ in _[-3:]) if _ else False
+                                    (rep.proved if par_used else rep.violated)(
+                                        "R-ERR", fn, "unix-path-truncation#%d" % n, "%s: a path that does not fit sun_path is refused" % fn.name,
+                                        "" if par_used else "the result of strlcpy at line %s is dropped: a path of 108..111 characters is cut to 107 and "
+                                        "success is returned" % x.get("ln"), x.get("ln"))
+                                continue
+                            n += 1
+                            rep.functions.add(fn.name)
+                            rep.violated("R-BAN", fn, "unix-path-scan#%d" % n, "%s: the AF_UNIX path is not scanned for a terminator it need not have" % fn.name,
+                                         "%s(%s) at line %s reads the source up to a NUL: a sun_path filled with 108 bytes is read past the "
+                                         "address object" % (x["fn"], key(src)[:40], x.get("ln")), x.get("ln"))
+    if n == 0:
+        rep.proved("R-BAN", "", "unix-path-scan", "no NUL-scanning routine is applied to sun_path in an AF_UNIX arm of %s" % rel, "", file=rel, unit=rel)
+    return n
 
 
 def kind_rule(rep, u, rel, fns=None):
@@ -478,9 +554,9 @@ def parser_siblings(rep, u):
         diff = ka - kb
         if best is None or sum(diff.values()) < sum(best.values()):
             best = diff
-            if not sum(diff.values()) - sum(v for k_, v in diff.items() if k_.startswith("sa_port_set(")):
+            if not sum(diff.values()) - sum(v for k_, v in diff.items() if "sa_port_set(" in k_):
                 break
-    rest = [k_ for k_ in best if not (k_.startswith("sa_port_set(") and k_.endswith(",0)"))]
+    rest = [k_ for k_ in best if not ("sa_port_set(" in k_ and k_.rstrip(")").endswith(",0"))]
     desc = ("every statement of sa_addr_from_str (trimming of blanks and brackets, bounded copy, inet_pton over the family list, "
             "AF_UNIX fallback) occurs in sa_addr_port_from_str up to the names of locals; only the port argument differs")
     if rest:
@@ -599,6 +675,15 @@ def run(rep, tier):
     rep.floor("prefix lengths evaluated", mask_functions(rep, unu, table), 160)
     rep.floor("family switch arms", kind_rule(rep, usa, SA) + kind_rule(rep, unu, NU), 20)
     parser_siblings(rep, usa)
+    unix_path_rule(rep, usa, SA)
+    # no status of the address routines is dropped on the way to a success return (a refused path / family must surface)
+    from rules import r_err
+    S_, _ = r_err.status_functions(usa)
+    nerr = 0
+    for f_ in usa.function_list:
+        if f_.relfile() == SA and f_.has_cfg:
+            nerr += r_err.check(rep, f_, S_, {})
+    rep.floor("status-returning calls in socket_address.c", nerr, 6)
     rep.floor("prefix text cases", prefix_passthrough(rep, unu), 16)
     rep.floor("numeric fields of the text parsers", strict_number_rule(rep, us), 2)
     nwf = nacc = 0
